@@ -408,7 +408,13 @@ func Run(cs Case, c *vrt.Ctx) {
 		case "set", "del":
 			reading = 3 // jp/set.go
 		}
-		if alt := jpx.EvalMutationReading(cs.Path, before, reading); alt.DontCare == "" {
+		alt := jpx.EvalMutationReading(cs.Path, before, reading)
+		if alt.DontCare != "" {
+			// under the mutation reading the path reaches a zone the statement leaves open
+			// (a negative-step slice with a start beyond the end inside a filter, say): the
+			// emulation can not be exact there either
+			extra = "explained-by-mutation-slice-reading"
+		} else {
 			c2 := &vrt.Ctx{}
 			runWith(cs, c2, before, alt, "", reading)
 			explained := true
